@@ -123,7 +123,7 @@ def gen_cases(tier):
                 if name == "arange" and (ai + bi) % 3:
                     continue
                 cases.append({"kind": "range", "args": [a, b], "input": f"{name}({a}, {b})"})
-        for a in ["0", "0.1", "0.2", "0.3", "0.5", "1", "1.2", "2.4"]:
+        for a in ["0", "0.1", "0.2", "0.3", "0.5", "1", "1.2", "2.4", "0.25", "0.05", "0.35", "1.125"]:
             for bi in range(1, 31):
                 b = dec(str(F(a) + F(bi, 10)))
                 for st in ["0.1", "0.2", "0.25", "0.3", "0.4", "0.5", "1"]:
@@ -133,7 +133,27 @@ def gen_cases(tier):
                     strs = ws_variants("(", args, ")", prefix=name)[:(3 if bi % 10 == 0 else 1)]
                     for s in strs:
                         cases.append({"kind": "range", "args": args, "input": s})
-    return cases
+    # twins: the array a linspace/range text generates, written out as a list with the very same floats -> byte-identical
+    # radii, so the identifier must be identical too
+    import numpy as _np
+    twins = []
+    for c in cases:
+        if c["kind"] in ("linspace", "range") and len(twins) < 400 and c["input"].count(" ") <= 3:
+            try:
+                nums = [float(x) for x in c["args"]]
+                if c["kind"] == "linspace":
+                    vals = _np.linspace(*([nums[0], nums[1]] + ([int(nums[2])] if len(nums) == 3 else [])))
+                else:
+                    vals = _np.arange(*nums, dtype=float)
+                    stop = nums[0] if len(nums) == 1 else nums[1]
+                    desc = len(nums) == 3 and nums[2] < 0
+                    vals = vals[((vals > stop) if desc else (vals < stop)) & ~_np.isclose(vals, stop)]
+                if 1 <= len(vals) <= 12 and _np.all(vals >= 0):
+                    text = "[" + ", ".join(repr(float(v)) for v in vals) + "]"
+                    twins.append({"kind": "list", "args": [repr(float(v)) for v in vals], "input": text})
+            except Exception:
+                pass
+    return cases + twins
 
 
 def intended(case):
